@@ -135,7 +135,7 @@ class Driver:
         if not os.path.exists(DRIVER):
             raise InfraError('driver executable missing: run setup (lake build)')
 
-    def run(self, lines, timeout=600):
+    def run(self, lines, timeout=3600):
         if not lines:
             return []
         data = ('\n'.join(lines) + '\n').encode('ascii')
@@ -152,7 +152,7 @@ class Driver:
             raise InfraError(f'driver returned {len(out)} lines for {len(lines)} requests')
         return out
 
-    def run_parallel(self, lines, jobs=None, timeout=900):
+    def run_parallel(self, lines, jobs=None, timeout=5400):
         jobs = jobs or min(16, os.cpu_count() or 4)
         if len(lines) < 400 or jobs <= 1:
             return self.run(lines, timeout)
@@ -168,7 +168,7 @@ class Driver:
         return out
 
 
-def run_groups(driver, groups, jobs=None, timeout=900):
+def run_groups(driver, groups, jobs=None, timeout=5400):
     """groups: list of lists of request lines that must stay together (stateful histories).  Returns per-group outputs."""
     jobs = jobs or min(16, os.cpu_count() or 4)
     if not groups:
